@@ -472,6 +472,28 @@ static ASMJIT_FAVOR_SIZE Error validate(InstDB::Mode mode, const BaseInst& inst,
           reg_mask = 0;
         }
 
+        // 16-bit addressing has no SIB byte - only [BX|BP|SI|DI] and [BX|BP + SI|DI] (without a scale) can be encoded.
+        if ((base_type == RegType::kGp16 || index_type == RegType::kGp16) && !m.is_reg_home()) {
+          constexpr uint32_t kBxBp = Support::bit_mask<uint32_t>(Gp::kIdBx, Gp::kIdBp);
+          constexpr uint32_t kSiDi = Support::bit_mask<uint32_t>(Gp::kIdSi, Gp::kIdDi);
+
+          bool has_both = base_type == index_type;
+          uint32_t id0 = base_type == RegType::kGp16 ? m.base_id() : m.index_id();
+          uint32_t id1 = has_both ? m.index_id() : id0;
+
+          // Virtual registers cannot be validated as they have no physical id yet.
+          if (id0 < 32u && id1 < 32u) {
+            uint32_t mask0 = Support::bit_mask<uint32_t>(id0);
+            uint32_t mask1 = Support::bit_mask<uint32_t>(id1);
+
+            bool valid = has_both ? m.shift() == 0 && (((mask0 & kBxBp) && (mask1 & kSiDi)) || ((mask0 & kSiDi) && (mask1 & kBxBp)))
+                                  : (mask0 & (kBxBp | kSiDi)) != 0;
+            if (ASMJIT_UNLIKELY(!valid)) {
+              return make_error(Error::kInvalidAddress);
+            }
+          }
+        }
+
         switch (mem_size) {
           case  0: op_flags |= InstDB::OpFlags::kMemUnspecified; break;
           case  1: op_flags |= InstDB::OpFlags::kMem8; break;
